@@ -25,9 +25,16 @@
   OBLIGATION c17_witness_block_triple_quote
   OBLIGATION c17_witness_interface_order
   OBLIGATION c17_witness_dynamic_registration
+  OBLIGATION c17_witness_compose_url
+  OBLIGATION c17_tokens_compose_block
+  OBLIGATION c17_tokens_wf_any_order
+  OBLIGATION c17_compose_groups_spec
 
   Nothing is left open: `c17_tokens` as first stated (no well-formedness hypothesis) is refuted
-  (`c17_tokens_false`), the corrected statement `c17_tokens_wf` is proved for every option set.
+  (`c17_tokens_false`), the corrected statement `c17_tokens_wf` is proved for every option set,
+  composable directive definitions (any URL text, any number of URLs) included, and
+  `c17_tokens_wf_any_order` for every order in which the exporter's `HashMap` may yield the
+  compose blocks.
 
   All theorems are about the model with no defect toggle (`Defects.none` = the tree with the fix
   diffs applied); each toggle has a witness showing the statement fails with it.
@@ -36,6 +43,7 @@ import AGV.Model.Sdl
 import AGV.Spec.SdlParse
 import AGV.Lemmas.SdlBlock
 import AGV.Lemmas.SdlDocument
+import AGV.Lemmas.SdlGroups
 
 namespace AGV.Props.C17
 open AGV.Core.Sdl AGV.Model.Sdl AGV.Spec.Literal AGV.Spec.Lex AGV.Lemmas.SdlBlock
@@ -159,6 +167,23 @@ theorem c17_witness_dynamic_registration :
         [⟨"x".toList, { tags := ["t".toList] }, .named "Int".toList true, none⟩]) := by
   refine ⟨rfl, rfl, rfl⟩
 
+/-- a composable URL containing a quote: with the toggle the URL is written as it is, the string
+    token ends inside it and the block is no type-system document at all; the repaired exporter's
+    block is one -/
+theorem c17_witness_compose_url :
+    AGV.Spec.SdlParse.parseSchema (composeSdl { composeUrlRaw := true } {} ("a\"b".toList, ["@cd".toList])) = none ∧
+    AGV.Spec.SdlParse.parseSchema (composeSdl Defects.none {} ("a\"b".toList, ["@cd".toList])) =
+      some [AGV.Lemmas.SdlSkeleton.xGroup ("a\"b".toList, ["@cd".toList])] := by
+  refine ⟨by decide, ?_⟩
+  have hl := AGV.Lemmas.SdlSkeleton.Lx_group {} ("a\"b".toList, ["@cd".toList]) (by decide) [] [] AGV.Lemmas.SdlLex.Lx.nil
+  simp only [List.append_nil] at hl
+  unfold AGV.Spec.SdlParse.parseSchema
+  rw [hl.tokens]
+  have := AGV.Lemmas.SdlSkeleton.pDefs_exts [AGV.Lemmas.SdlSkeleton.groupApps ("a\"b".toList, ["@cd".toList])] (by simp)
+    (by intro a ha; rw [List.mem_singleton.mp ha]; exact ⟨AGV.Lemmas.SdlSkeleton.groupApps_ne _, AGV.Lemmas.SdlSkeleton.groupApps_wf _⟩)
+    ((AGV.Lemmas.SdlSkeleton.groupToks ("a\"b".toList, ["@cd".toList])).length + 1) (by simp)
+  simpa [AGV.Spec.SdlParse.parseTokens, AGV.Lemmas.SdlSkeleton.groupToks, AGV.Lemmas.SdlSkeleton.xGroup] using this
+
 -- ------------------------------------------------------------------ the document: type-definition skeleton
 
 section Skeleton
@@ -205,7 +230,7 @@ theorem c17_tokens_partial (k : Kind) (S : Schema) (o : Opts) (ho : o.federation
     (∃ tail, run Defects.none k S o = typeDefsText S o ++ tail) ∧
     (∀ reg groups present, ∃ tail, describe o S reg groups present = typeDefsDoc o S ++ tail) ∧
     parseSchema (typeDefsText S o) = some (typeDefsDoc o S) := by
-  refine ⟨⟨_, by rw [run, register_none]; unfold exportSdl typeDefsText; rw [List.append_assoc]⟩, fun reg groups present => ⟨_, by simp only [describe, typeDefsDoc, List.append_assoc]; rfl⟩, ?_⟩
+  refine ⟨⟨_, by rw [run, register_none]; unfold exportSdl exportSdlG typeDefsText; rw [List.append_assoc]⟩, fun reg groups present => ⟨_, by simp only [describe, typeDefsDoc, List.append_assoc]; rfl⟩, ?_⟩
   have hfilt : (sorted true TypeDef.name S.types).filter
       (fun t => !startsDunder t.name && !(o.federation && (federationTypeNames.contains t.name || t.name = kwT "Any"))) =
       (sortByName TypeDef.name S.types).filter (typeExported o) := by
@@ -348,7 +373,7 @@ theorem c17_tokens_false : ¬ c17_tokens := by
   have : parseSchema (run Defects.none .derived percentWitness {}) = none := by
     unfold run
     rw [register_none]
-    unfold exportSdl
+    unfold exportSdl exportSdlG
     rw [types_percent]
     unfold parseSchema tokens
     simp only [List.cons_append, List.nil_append]
@@ -427,7 +452,8 @@ example : ∀ d ∈ systemDirectives ++ fullWitness.ddefs, SkelDirDef d := by
 theorem c17_tokens_plain_doc (k : Kind) (S : Schema) (o : Opts) (ho : o.federation = false) (hS : schemaOk S = true) :
     parseSchema (run Defects.none k S o) =
       some (describe o S (allDirectives S) (composeGroups (allDirectives S)) (presentOf S)) := by
-  rw [run, register_none, parse_xDoc o S hS (by intro h; rw [ho] at h; cases h), xDoc_plain o ho S hS]
+  rw [run, register_none, exportSdl, parse_xDoc o S hS (by intro h; rw [ho] at h; cases h) _ (composeGroups_ok S hS),
+    xDoc_plain o ho S hS]
 
 /-- … in the shape of `c17_tokens` (the plain-export half of `c17_tokens_wf`, where the documents
     are even EQUAL, not only equal up to directive order) -/
@@ -459,31 +485,81 @@ theorem c17_tokens_federation_order (o : Opts) (a : Attrs) (h : o.federation = t
 example : appsFedOk { inacc := true, tags := ["t".toList], dirs := [⟨"auth".toList, []⟩, ⟨"zeta".toList, []⟩, ⟨"auth".toList, [("level".toList, .int 2)]⟩] } = true := by
   decide
 
+/-- STEP 5b, one compose block in context: for ANY composable URL text and any import names that
+    need no escaping (`@` + a Name does not), the text the repaired exporter writes for a group —
+    `extend schema @link(url: "…" import: […])` and one `@composeDirective(name: …)` per name —
+    is the token sequence `groupToks`, which the reference parser reads as the schema extension
+    `describe` requires for the group, whatever definition follows. -/
+theorem c17_tokens_compose_block (o : Opts) (g : Text × List Text) (hn : ∀ n ∈ g.2, escapeString false n = n)
+    (rest : Text) (ts more : List Tok) (h : Lx rest ts) (hm : DefEnd more) :
+    Lx (composeSdl Defects.none o g ++ rest) (groupToks g ++ ts) ∧
+    pDef (groupToks g ++ more) =
+      some (.schema true (linkDir g.1 g.2 :: g.2.map (fun n => ⟨kwT "composeDirective", [(kwT "name", .str n)]⟩)) none none none, more) := by
+  refine ⟨Lx_group o g hn rest ts h, ?_⟩
+  rw [groupToks, pDef_ext (groupApps g) (groupApps_wf g) (groupApps_ne g) more hm, groupApps_dDir]
+
+example : escapeString false "@custom_directive".toList = "@custom_directive".toList :=
+  importName_plain "custom_directive".toList (by decide)
+
+/-- THE WHOLE DOCUMENT, EVERY option set, EVERY ORDER OF THE COMPOSE BLOCKS: `Registry::export_sdl`
+    collects the composable directives in a `HashMap` keyed by URL and writes one block per entry
+    in the map's iteration order, which changes from call to call.  For every well-formed schema
+    (`schemaOk`; for a federation export `federationOk`), both ways of registering, every option
+    set, and every permutation `gs` of the groups: the text the repaired exporter writes — lexed
+    by the specification's lexer, parsed by the reference parser — is the description of the
+    registered schema with its schema extensions in that order (`cDoc`: directive applications
+    compared up to the order of differently named directives; the built-in directive definitions
+    present are those the exporter wrote).  Composable directives: any URL text, any number of
+    URLs, any number of directives per URL. -/
+theorem c17_tokens_wf_any_order (k : Kind) (S : Schema) (o : Opts) (hS : schemaOk S = true)
+    (hF : o.federation = true → federationOk S = true)
+    (gs : List (Text × List Text)) (hp : gs.Perm (linkGroups (allDirectives S))) : ∃ present,
+    (parseSchema (runG Defects.none k S o gs)).map (fun d => cDoc d) =
+      some (cDoc (describe o S (allDirectives S) gs present)) := by
+  refine ⟨presentOf S, ?_⟩
+  rw [← composeGroups_linkGroups] at hp
+  rw [runG, register_none, parse_xDoc o S hS hF gs ((composeGroups_ok S hS).perm hp), Option.map_some, xDoc_cDoc o S hS hF]
+
+/-- the exporter's grouping loop (a fold over the directive table with a map keyed by URL)
+    computes exactly the link groups the specification asks for: one group per distinct
+    composable URL, in order of first appearance, importing `@name` for every directive registered
+    with that URL, in registration order — for every directive table. -/
+theorem c17_compose_groups_spec (ds : List DirDef) : composeGroups ds = linkGroups ds :=
+  composeGroups_linkGroups ds
+
 /-- THE WHOLE DOCUMENT, corrected statement, EVERY option set (plain and federation exports,
     compose, sorting, single-line descriptions, specifiedBy, indentation) and both ways of
     registering: for every well-formed schema — `schemaOk` (decidable: names are Names, enum
     values are not true / false / null, values are printable, non-empty field / member / value /
     location lists, no `__` field, no deprecation on a type itself, locations are directive
-    locations) and, for a federation export, `federationOk` (decidable: no composable directive
-    definition, no `_service` / `_entities` field, no non-scalar type named `Any`, no custom
-    directive application named `tag` / `inaccessible`) — the text the repaired exporter writes,
-    lexed by the specification's lexer and parsed by the reference parser, is the description of
-    the registered schema (`cDoc`: directive applications compared up to the order of differently
-    named directives; the built-in directive definitions present are those the exporter wrote). -/
+    locations) and, for a federation export, `federationOk` (decidable: no `_service` /
+    `_entities` field, no non-scalar type named `Any`, no custom directive application named
+    `tag` / `inaccessible`; composable directive definitions are allowed) — the text the repaired
+    exporter writes (compose blocks in order of first appearance), lexed by the specification's
+    lexer and parsed by the reference parser, is the description of the registered schema
+    (`cDoc`: directive applications compared up to the order of differently named directives; the
+    built-in directive definitions present are those the exporter wrote; the link groups are the
+    specification's `linkGroups`). -/
 theorem c17_tokens_wf (k : Kind) (S : Schema) (o : Opts) (hS : schemaOk S = true)
     (hF : o.federation = true → federationOk S = true) : ∃ present,
     (parseSchema (run Defects.none k S o)).map (fun d => cDoc d) =
-      some (cDoc (describe o S (allDirectives S) (composeGroups (allDirectives S)) present)) := by
-  refine ⟨presentOf S, ?_⟩
-  rw [run, register_none, parse_xDoc o S hS hF, Option.map_some, xDoc_cDoc o S hS hF]
+      some (cDoc (describe o S (allDirectives S) (linkGroups (allDirectives S)) present)) := by
+  have e : run Defects.none k S o = runG Defects.none k S o (linkGroups (allDirectives S)) := by
+    rw [run, runG, register_none, exportSdl, composeGroups_linkGroups]
+  rw [e]
+  exact c17_tokens_wf_any_order k S o hS hF _ (List.Perm.refl _)
 
 /-- a federation export with `extends` types, @inaccessible, tags, custom directive applications
-    next to them (repeated ones too), a scalar `Any`, a federation type -/
+    next to them (repeated ones too), a scalar `Any`, a federation type, and composable directive
+    definitions: two sharing a URL, one with a URL full of quotes, backslashes and a line break -/
 def federationWitness : Schema :=
   let a1 : Attrs := { inacc := true, tags := ["a\"b".toList, "c".toList],
                       dirs := [⟨"auth".toList, []⟩, ⟨"zeta".toList, []⟩, ⟨"auth".toList, [("level".toList, .int 2)]⟩] }
   let a2 : Attrs := { desc := some "dd".toList, inacc := true, tags := ["t".toList], dirs := [⟨"zeta".toList, []⟩] }
-  { query := "Q".toList, mutation := none, ddefs := [],
+  { query := "Q".toList, mutation := none,
+    ddefs := [ ⟨"auth".toList, none, [], true, ["OBJECT".toList], some "https://custom.spec.dev/extension/v1.0".toList⟩,
+               ⟨"zeta".toList, some "z".toList, [], false, ["FIELD_DEFINITION".toList], some "https://e.org/\"x\"\\n\n".toList⟩,
+               ⟨"cd".toList, none, [], false, ["ENUM".toList], some "https://custom.spec.dev/extension/v1.0".toList⟩ ],
     types := [ .object "Q".toList a2 true ["I".toList]
                  [⟨"x".toList, { a1 with dep := .yes (some "old".toList) }, .named "Int".toList true,
                     [⟨"y".toList, a1, .named "E".toList true, some (.enum "A".toList)⟩]⟩],
@@ -498,16 +574,22 @@ def federationWitness : Schema :=
 example : schemaOk federationWitness = true ∧ federationOk federationWitness = true ∧
     schemaOk fullWitness = true ∧ federationOk fullWitness = true := by decide
 
+example : composeGroups federationWitness.ddefs =
+    [("https://custom.spec.dev/extension/v1.0".toList, ["@auth".toList, "@cd".toList]),
+     ("https://e.org/\"x\"\\n\n".toList, ["@zeta".toList])] := by decide
+
 /-- CHARACTERS TO TOKENS, every option set: the exported text of a well-formed schema is, for the
     specification's lexer (`tokens`), exactly the token sequence `docToks` — every separator the
     exporter writes (blanks, tabs, line ends, commas, the `\n\n` between definitions, either
     argument layout, either description style) is ignored, every lexeme ends where the exporter
     ends it. -/
 theorem c17_chars (k : Kind) (S : Schema) (o : Opts) (hS : schemaOk S = true)
-    (hF : o.federation = true → federationOk S = true) :
-    tokens (run Defects.none k S o) = some (docToks o S) := by
-  rw [run, register_none]
-  exact (Lx_document o S hS hF).tokens
+    (hF : o.federation = true → federationOk S = true)
+    (gs : List (Text × List Text)) (hp : gs.Perm (linkGroups (allDirectives S))) :
+    tokens (runG Defects.none k S o gs) = some (docToks o S gs) := by
+  rw [← composeGroups_linkGroups] at hp
+  rw [runG, register_none]
+  exact (Lx_document o S hS hF gs ((composeGroups_ok S hS).perm hp)).tokens
 
 end Whole
 
